@@ -1,4 +1,688 @@
 import TrimeshVerif.Model.Forest
+/-!
+Helper lemmas for C09 (scene-graph forest).  Core Lean only.
+-/
 namespace TV.Forest
+
+variable {N G : Type} [DecidableEq N]
+
+/-! ### group algebra from `LawfulGroup` -/
+section grp
+variable [Mul G] [One G] [Inv G] [LawfulGroup G]
+
+theorem g_eq_inv_of_mul_eq_one {a b : G} (h : a * b = 1) : b = a⁻¹ := by
+  calc b = 1 * b := (LawfulGroup.one_mul b).symm
+    _ = (a⁻¹ * a) * b := by rw [LawfulGroup.inv_mul_cancel]
+    _ = a⁻¹ * (a * b) := LawfulGroup.mul_assoc _ _ _
+    _ = a⁻¹ * 1 := by rw [h]
+    _ = a⁻¹ := LawfulGroup.mul_one _
+
+theorem g_inv_inv (a : G) : (a⁻¹)⁻¹ = a :=
+  (g_eq_inv_of_mul_eq_one (LawfulGroup.inv_mul_cancel a)).symm
+
+theorem g_inv_one : (1 : G)⁻¹ = 1 :=
+  (g_eq_inv_of_mul_eq_one (LawfulGroup.one_mul (1 : G))).symm
+
+theorem g_mul_inv_rev (a b : G) : (a * b)⁻¹ = b⁻¹ * a⁻¹ := by
+  symm
+  apply g_eq_inv_of_mul_eq_one
+  calc a * b * (b⁻¹ * a⁻¹) = a * (b * (b⁻¹ * a⁻¹)) := LawfulGroup.mul_assoc _ _ _
+    _ = a * ((b * b⁻¹) * a⁻¹) := by rw [LawfulGroup.mul_assoc b]
+    _ = a * a⁻¹ := by rw [LawfulGroup.mul_inv_cancel, LawfulGroup.one_mul]
+    _ = 1 := LawfulGroup.mul_inv_cancel a
+
+/-- `(x⁻¹ y) (y⁻¹ z) = x⁻¹ z` -/
+theorem g_telescope (x y z : G) : (x⁻¹ * y) * (y⁻¹ * z) = x⁻¹ * z := by
+  calc (x⁻¹ * y) * (y⁻¹ * z) = x⁻¹ * (y * (y⁻¹ * z)) := LawfulGroup.mul_assoc _ _ _
+    _ = x⁻¹ * ((y * y⁻¹) * z) := by rw [LawfulGroup.mul_assoc y]
+    _ = x⁻¹ * z := by rw [LawfulGroup.mul_inv_cancel, LawfulGroup.one_mul]
+
+/-- the three laws of `T a b = (w a)⁻¹ * w b` -/
+theorem g_T_laws (x y z : G) :
+    x⁻¹ * x = 1 ∧ x⁻¹ * z = (x⁻¹ * y) * (y⁻¹ * z) ∧ x⁻¹ * y = (y⁻¹ * x)⁻¹ :=
+  ⟨LawfulGroup.inv_mul_cancel x, (g_telescope x y z).symm, by rw [g_mul_inv_rev, g_inv_inv]⟩
+
+/-- `x⁻¹ (x g) = g` -/
+theorem g_inv_mul_mul (x g : G) : x⁻¹ * (x * g) = g := by
+  rw [← LawfulGroup.mul_assoc, LawfulGroup.inv_mul_cancel, LawfulGroup.one_mul]
+
+end grp
+
+/-! ### association-list lookups -/
+
+theorem lookup_some_mem {α β : Type} [BEq α] [LawfulBEq α] {l : List (α × β)} {k : α} {v : β}
+    (h : (l.find? (fun p => p.1 == k)).map (·.2) = some v) : (k, v) ∈ l := by
+  cases hf : l.find? (fun p => p.1 == k) with
+  | none => simp [hf] at h
+  | some e =>
+    rw [hf] at h
+    have h1 := List.find?_some hf
+    have h2 := List.mem_of_find?_eq_some hf
+    simp at h h1
+    obtain ⟨a, b⟩ := e
+    simp at h h1
+    subst h; subst h1; exact h2
+
+theorem lookup_of_mem_nodup {α β : Type} [BEq α] [LawfulBEq α] {l : List (α × β)} {k : α} {v : β}
+    (hn : (l.map (·.1)).Nodup) (hm : (k, v) ∈ l) :
+    (l.find? (fun p => p.1 == k)).map (·.2) = some v := by
+  induction l with
+  | nil => simp at hm
+  | cons e t ih =>
+    obtain ⟨a, b⟩ := e
+    simp only [List.map_cons, List.nodup_cons] at hn
+    simp only [List.mem_cons, Prod.mk.injEq] at hm
+    rcases hm with ⟨rfl, rfl⟩ | hm
+    · simp
+    · have hne : a ≠ k := by
+        intro hak; subst hak
+        exact hn.1 (List.mem_map.mpr ⟨(a, v), hm, rfl⟩)
+      simp [hne, ih hn.2 hm]
+
+theorem lookup_none {α β : Type} [BEq α] [LawfulBEq α] {l : List (α × β)} {k : α}
+    (h : ∀ e ∈ l, e.1 ≠ k) : (l.find? (fun p => p.1 == k)).map (·.2) = none := by
+  have : l.find? (fun p => p.1 == k) = none := by
+    rw [List.find?_eq_none]; intro x hx; simpa using h x hx
+  simp [this]
+
+theorem lookup_none_imp {α β : Type} [BEq α] [LawfulBEq α] {l : List (α × β)} {k : α}
+    (h : (l.find? (fun p => p.1 == k)).map (·.2) = none) : ∀ e ∈ l, e.1 ≠ k := by
+  intro e he
+  cases hf : l.find? (fun p => p.1 == k) with
+  | none => rw [List.find?_eq_none] at hf; simpa using hf e he
+  | some x => simp [hf] at h
+
+theorem parentOf_mem {f : Forest N G} {v p : N} (h : parentOf f v = some p) : (v, p) ∈ f.parents :=
+  lookup_some_mem h
+
+theorem parentOf_of_mem {f : Forest N G} {v p : N} (hn : (f.parents.map (·.1)).Nodup)
+    (h : (v, p) ∈ f.parents) : parentOf f v = some p :=
+  lookup_of_mem_nodup hn h
+
+theorem edgeOf_mem {f : Forest N G} {u v : N} {g : G} (h : edgeOf f u v = some g) :
+    ((u, v), g) ∈ f.edges :=
+  lookup_some_mem h
+
+theorem edgeOf_of_mem {f : Forest N G} {u v : N} {g : G} (hn : (f.edges.map (·.1)).Nodup)
+    (h : ((u, v), g) ∈ f.edges) : edgeOf f u v = some g :=
+  lookup_of_mem_nodup hn h
+
+/-! ### well-formedness with an explicit rank -/
+
+structure WFr (f : Forest N G) (rank : N → Nat) : Prop where
+  parents_nodup : (f.parents.map (·.1)).Nodup
+  edges_nodup : (f.edges.map (·.1)).Nodup
+  consistent : ∀ u v, (v, u) ∈ f.parents ↔ ∃ g, ((u, v), g) ∈ f.edges
+  acyclic : ∀ p ∈ f.parents, rank p.2 < rank p.1
+
+/-! ### complete ancestor chains -/
+
+inductive Chain (f : Forest N G) : N → List N → Prop
+  | root {x : N} : parentOf f x = none → Chain f x [x]
+  | step {x p : N} {l : List N} : parentOf f x = some p → Chain f p l → Chain f x (x :: l)
+
+theorem Chain.head {f : Forest N G} {x : N} {l : List N} (h : Chain f x l) : ∃ t, l = x :: t := by
+  cases h with
+  | root _ => exact ⟨[], rfl⟩
+  | step _ _ => exact ⟨_, rfl⟩
+
+theorem Chain.unique {f : Forest N G} {x : N} {l₁ l₂ : List N} (h₁ : Chain f x l₁)
+    (h₂ : Chain f x l₂) : l₁ = l₂ := by
+  induction h₁ generalizing l₂ with
+  | root hx =>
+    cases h₂ with
+    | root _ => rfl
+    | step hp _ => rw [hx] at hp; cases hp
+  | step hp _ ih =>
+    cases h₂ with
+    | root hx => rw [hx] at hp; cases hp
+    | step hp' hc =>
+      rw [hp] at hp'; cases hp'
+      rw [ih hc]
+
+theorem Chain.ancestors_eq {f : Forest N G} {x : N} {l : List N} (h : Chain f x l) :
+    ∀ n, l.length ≤ n + 1 → ancestors f n x = l := by
+  induction h with
+  | root hx =>
+    intro n _
+    cases n with
+    | zero => rfl
+    | succ n => simp [ancestors, hx]
+  | @step x p l hp hc ih =>
+    intro n hn
+    cases n with
+    | zero =>
+      obtain ⟨t, rfl⟩ := hc.head
+      simp at hn
+    | succ n =>
+      simp only [List.length_cons] at hn
+      simp [ancestors, hp, ih n (by omega)]
+
+theorem chain_exists {f : Forest N G} {rank : N → Nat}
+    (hac : ∀ p ∈ f.parents, rank p.2 < rank p.1) (x : N) : ∃ l, Chain f x l := by
+  induction hr : rank x using Nat.strongRecOn generalizing x with
+  | _ r ih =>
+    cases hp : parentOf f x with
+    | none => exact ⟨[x], .root hp⟩
+    | some p =>
+      have := hac _ (parentOf_mem hp)
+      obtain ⟨l, hl⟩ := ih (rank p) (by simpa [hr] using this) p rfl
+      exact ⟨x :: l, .step hp hl⟩
+
+/-- a chain is `kids ++ [root]` where the kids are distinct children -/
+theorem Chain.kids {f : Forest N G} {rank : N → Nat}
+    (hac : ∀ p ∈ f.parents, rank p.2 < rank p.1) {x : N} {l : List N} (h : Chain f x l) :
+    (∀ y ∈ l, rank y ≤ rank x) ∧
+    ∃ k r, l = k ++ [r] ∧ k.Nodup ∧ ∀ y ∈ k, y ∈ f.parents.map (·.1) := by
+  induction h with
+  | @root x hx => exact ⟨by simp, [], x, rfl, by simp, by simp⟩
+  | @step x p l hp hc ih =>
+    obtain ⟨hrk, k, r, rfl, hk, hsub⟩ := ih
+    have hlt := hac _ (parentOf_mem hp)
+    simp only at hlt
+    refine ⟨?_, x :: k, r, rfl, ?_, ?_⟩
+    · intro y hy
+      rcases List.mem_cons.mp hy with rfl | hy
+      · exact Nat.le_refl _
+      · have := hrk y hy; omega
+    · rw [List.nodup_cons]
+      refine ⟨fun hx => ?_, hk⟩
+      have := hrk x (List.mem_append_left _ hx); omega
+    · intro y hy
+      rcases List.mem_cons.mp hy with rfl | hy
+      · exact List.mem_map.mpr ⟨_, parentOf_mem hp, rfl⟩
+      · exact hsub y hy
+
+theorem Chain.length_le {f : Forest N G} {rank : N → Nat}
+    (hac : ∀ p ∈ f.parents, rank p.2 < rank p.1) {x : N} {l : List N} (h : Chain f x l) :
+    l.length ≤ f.parents.length + 1 := by
+  obtain ⟨_, k, r, rfl, hk, hsub⟩ := h.kids hac
+  have := List.Nodup.length_le_of_subset hk (fun y hy => hsub y hy)
+  simp at this ⊢; exact this
+
+/-- the ancestors chain with the model's fuel -/
+abbrev anc (f : Forest N G) (x : N) : List N := ancestors f f.parents.length x
+
+theorem chain_anc {f : Forest N G} {rank : N → Nat}
+    (hac : ∀ p ∈ f.parents, rank p.2 < rank p.1) (x : N) : Chain f x (anc f x) := by
+  obtain ⟨l, hl⟩ := chain_exists hac x
+  rw [show anc f x = l from hl.ancestors_eq _ (hl.length_le hac)]
+  exact hl
+
+theorem anc_root {f : Forest N G} {rank : N → Nat}
+    (hac : ∀ p ∈ f.parents, rank p.2 < rank p.1) {x : N} (hp : parentOf f x = none) :
+    anc f x = [x] :=
+  (chain_anc hac x).unique (.root hp)
+
+theorem anc_step {f : Forest N G} {rank : N → Nat}
+    (hac : ∀ p ∈ f.parents, rank p.2 < rank p.1) {x p : N} (hp : parentOf f x = some p) :
+    anc f x = x :: anc f p :=
+  (chain_anc hac x).unique (.step hp (chain_anc hac p))
+
+theorem self_mem_anc (f : Forest N G) (x : N) : x ∈ anc f x := by
+  unfold anc
+  cases f.parents.length with
+  | zero => simp [ancestors]
+  | succ n => simp only [ancestors]; split <;> simp
+
+/-! ### world matrices: fuel independence and the step equation -/
+section world
+variable [Mul G] [One G] [Inv G]
+
+omit [Inv G] in
+theorem Chain.world_eq {f : Forest N G} {x : N} {l : List N} (h : Chain f x l) :
+    ∀ n m, l.length ≤ n + 1 → l.length ≤ m + 1 → world f n x = world f m x := by
+  induction h with
+  | root hx =>
+    intro n m _ _
+    cases n <;> cases m <;> simp [world, hx]
+  | @step x p l hp hc ih =>
+    intro n m hn hm
+    obtain ⟨t, rfl⟩ := hc.head
+    simp only [List.length_cons] at hn hm
+    cases n with
+    | zero => omega
+    | succ n =>
+      cases m with
+      | zero => omega
+      | succ m =>
+        simp only [world, hp]
+        rw [ih n m (by simp; omega) (by simp; omega)]
+
+omit [Inv G] in
+theorem world_parent {f : Forest N G} {rank : N → Nat}
+    (hac : ∀ p ∈ f.parents, rank p.2 < rank p.1) {x p : N} (hp : parentOf f x = some p) :
+    world f f.parents.length x =
+      match edgeOf f p x with
+      | some g => world f f.parents.length p * g
+      | none => world f f.parents.length p := by
+  have hc := chain_anc hac p
+  have hx : Chain f x (x :: anc f p) := .step hp hc
+  have hlen := hx.length_le hac
+  simp only [List.length_cons] at hlen
+  cases hn : f.parents.length with
+  | zero => rw [hn] at hlen; obtain ⟨t, ht⟩ := hc.head; rw [ht] at hlen; simp at hlen
+  | succ n =>
+    rw [hn] at hlen
+    have e : world f (n + 1) x =
+        (match edgeOf f p x with
+         | some g => world f n p * g
+         | none => world f n p) := by simp only [world, hp]; rfl
+    rw [e, hc.world_eq n (n + 1) (by omega) (by omega)]
+
+omit [Inv G] in
+theorem world_root {f : Forest N G} {x : N} (hp : parentOf f x = none) (n : Nat) :
+    world f n x = 1 := by
+  cases n <;> simp [world, hp]
+
+omit [Inv G] in
+/-- `world(v) = world(u) · g` for every edge `((u, v), g)` -/
+theorem world_edge {f : Forest N G} {rank : N → Nat} (h : WFr f rank) {u v : N} {g : G}
+    (he : ((u, v), g) ∈ f.edges) :
+    world f f.parents.length v = world f f.parents.length u * g := by
+  have hp : parentOf f v = some u := parentOf_of_mem h.parents_nodup ((h.consistent u v).mpr ⟨g, he⟩)
+  rw [world_parent h.acyclic hp, edgeOf_of_mem h.edges_nodup he]
+
+omit [Mul G] [One G] [Inv G] in
+/-- a child → parent step: no forward edge, the backward edge exists -/
+theorem edges_of_parent {f : Forest N G} {rank : N → Nat} (h : WFr f rank) {x p : N}
+    (hp : parentOf f x = some p) : edgeOf f x p = none ∧ ∃ g, edgeOf f p x = some g := by
+  have hm := parentOf_mem hp
+  constructor
+  · cases he : edgeOf f x p with
+    | none => rfl
+    | some g =>
+      have h1 := (h.consistent x p).mpr ⟨g, edgeOf_mem he⟩
+      have := h.acyclic _ hm; have := h.acyclic _ h1
+      simp only at *; omega
+  · obtain ⟨g, hg⟩ := (h.consistent p x).mp hm
+    exact ⟨g, edgeOf_of_mem h.edges_nodup hg⟩
+
+end world
+
+/-! ### products along paths -/
+section paths
+variable [Mul G] [One G] [Inv G]
+
+theorem pathProduct_cons_cons (f : Forest N G) (a b : N) (t : List N) :
+    pathProduct f (a :: b :: t) =
+      (stepMatrix f a b).bind fun m => (pathProduct f (b :: t)).bind fun r => some (m * r) := rfl
+
+variable [LawfulGroup G]
+
+theorem pathProduct_append {f : Forest N G} {x : N} {l₂ : List N} {m₂ : G}
+    (h₂ : pathProduct f (x :: l₂) = some m₂) :
+    ∀ (l₁ : List N) (m₁ : G), pathProduct f (l₁ ++ [x]) = some m₁ →
+      pathProduct f (l₁ ++ x :: l₂) = some (m₁ * m₂) := by
+  intro l₁
+  induction l₁ with
+  | nil =>
+    intro m₁ h₁
+    simp [pathProduct] at h₁
+    subst h₁
+    simpa [LawfulGroup.one_mul] using h₂
+  | cons a t ih =>
+    intro m₁ h₁
+    cases t with
+    | nil =>
+      simp only [List.nil_append, List.cons_append, pathProduct_cons_cons] at h₁ ⊢
+      cases hs : stepMatrix f a x with
+      | none => simp [hs] at h₁
+      | some m =>
+        simp [hs, pathProduct] at h₁
+        subst h₁
+        simp [h₂, LawfulGroup.mul_one]
+    | cons b t =>
+      simp only [List.cons_append, pathProduct_cons_cons] at h₁ ⊢
+      cases hs : stepMatrix f a b with
+      | none => simp [hs] at h₁
+      | some m =>
+        cases hr : pathProduct f (b :: (t ++ [x])) with
+        | none => simp [hs, hr] at h₁
+        | some r =>
+          simp [hs, hr] at h₁
+          subst h₁
+          have := ih r (by simpa using hr)
+          simp only [List.cons_append] at this
+          simp [this, LawfulGroup.mul_assoc]
+
+theorem takeWhile_ne_head {x link : N} (t : List N) :
+    ∃ r, (x :: t).takeWhile (· != link) ++ [link] = x :: r := by
+  by_cases h : x = link
+  · subst h; exact ⟨[], by simp⟩
+  · exact ⟨t.takeWhile (· != link) ++ [link], by simp [h]⟩
+
+theorem takeWhile_ne_last {x link : N} (t : List N) :
+    ∃ r, link :: ((x :: t).takeWhile (· != link)).reverse = r ++ [x] := by
+  by_cases h : x = link
+  · subst h; exact ⟨[], by simp⟩
+  · exact ⟨link :: (t.takeWhile (· != link)).reverse, by simp [h]⟩
+
+/-- walking up from `a` to an ancestor `link` -/
+theorem pathProduct_up {f : Forest N G} {rank : N → Nat} (h : WFr f rank) {a link : N}
+    {l : List N} (hc : Chain f a l) (hl : link ∈ l) :
+    pathProduct f (l.takeWhile (· != link) ++ [link]) =
+      some ((world f f.parents.length a)⁻¹ * world f f.parents.length link) := by
+  induction hc with
+  | @root x hx =>
+    simp at hl; subst hl
+    simp [pathProduct, LawfulGroup.inv_mul_cancel]
+  | @step x p l hp hc ih =>
+    by_cases hxl : x = link
+    · subst hxl
+      simp [pathProduct, LawfulGroup.inv_mul_cancel]
+    · have hl' : link ∈ l := by
+        rcases List.mem_cons.mp hl with h1 | h1
+        · exact absurd h1.symm hxl
+        · exact h1
+      have ih := ih hl'
+      obtain ⟨t, rfl⟩ := hc.head
+      obtain ⟨r, hr⟩ := takeWhile_ne_head (x := p) (link := link) t
+      rw [hr] at ih
+      have : (x :: p :: t).takeWhile (· != link) ++ [link] = x :: p :: r := by
+        rw [List.takeWhile_cons]; simp [hxl]; exact hr
+      rw [this, pathProduct_cons_cons, ih]
+      obtain ⟨he1, g, he2⟩ := edges_of_parent h hp
+      have hw := world_parent h.acyclic hp
+      rw [he2] at hw
+      simp only [stepMatrix, he1, he2, Option.map_some, Option.bind_some]
+      rw [hw, g_mul_inv_rev, LawfulGroup.mul_assoc]
+
+/-- walking down from an ancestor `link` to `b` -/
+theorem pathProduct_down {f : Forest N G} {rank : N → Nat} (h : WFr f rank) {b link : N}
+    {l : List N} (hc : Chain f b l) (hl : link ∈ l) :
+    pathProduct f (link :: (l.takeWhile (· != link)).reverse) =
+      some ((world f f.parents.length link)⁻¹ * world f f.parents.length b) := by
+  induction hc with
+  | @root x hx =>
+    simp at hl; subst hl
+    simp [pathProduct, LawfulGroup.inv_mul_cancel]
+  | @step x p l hp hc ih =>
+    by_cases hxl : x = link
+    · subst hxl
+      simp [pathProduct, LawfulGroup.inv_mul_cancel]
+    · have hl' : link ∈ l := by
+        rcases List.mem_cons.mp hl with h1 | h1
+        · exact absurd h1.symm hxl
+        · exact h1
+      have ih := ih hl'
+      obtain ⟨t, rfl⟩ := hc.head
+      obtain ⟨r, hr⟩ := takeWhile_ne_last (x := p) (link := link) t
+      rw [hr] at ih
+      have : link :: ((x :: p :: t).takeWhile (· != link)).reverse = r ++ p :: [x] := by
+        rw [List.takeWhile_cons]; simp [hxl]
+        have := congrArg (· ++ [x]) hr
+        simpa using this
+      rw [this]
+      obtain ⟨he1, g, he2⟩ := edges_of_parent h hp
+      have hw := world_parent h.acyclic hp
+      rw [he2] at hw
+      have h2 : pathProduct f (p :: [x]) = some g := by
+        simp [stepMatrix, he2, pathProduct, LawfulGroup.mul_one]
+      rw [pathProduct_append h2 r _ ih, hw, LawfulGroup.mul_assoc]
+
+/-- any common ancestor gives the product `world(a)⁻¹ · world(b)` -/
+theorem pathProduct_updown {f : Forest N G} {rank : N → Nat} (h : WFr f rank) {a b link : N}
+    (ha : link ∈ anc f a) (hb : link ∈ anc f b) :
+    pathProduct f ((anc f a).takeWhile (· != link) ++ [link] ++
+        ((anc f b).takeWhile (· != link)).reverse) =
+      some ((world f f.parents.length a)⁻¹ * world f f.parents.length b) := by
+  have h1 := pathProduct_up h (chain_anc h.acyclic a) ha
+  have h2 := pathProduct_down h (chain_anc h.acyclic b) hb
+  rw [List.append_assoc, List.singleton_append, pathProduct_append h2 _ _ h1, g_telescope]
+
+end paths
+
+/-! ### roots and the specification of `getRaw` -/
+
+theorem Chain.suffix {f : Forest N G} {x : N} {l : List N} (h : Chain f x l) {y : N} (hy : y ∈ l) :
+    ∃ pre l', l = pre ++ l' ∧ Chain f y l' := by
+  induction h with
+  | @root x hx =>
+    simp at hy; subst hy
+    exact ⟨[], [y], rfl, .root hx⟩
+  | @step x p l hp hc ih =>
+    by_cases hxy : y = x
+    · subst hxy; exact ⟨[], y :: l, rfl, .step hp hc⟩
+    · rcases List.mem_cons.mp hy with h1 | h1
+      · exact absurd h1 hxy
+      · obtain ⟨pre, l', e, hc'⟩ := ih h1
+        exact ⟨x :: pre, l', by rw [e]; rfl, hc'⟩
+
+theorem rootOf_eq_of_common {f : Forest N G} {rank : N → Nat}
+    (hac : ∀ p ∈ f.parents, rank p.2 < rank p.1) {a b link : N}
+    (ha : link ∈ anc f a) (hb : link ∈ anc f b) : rootOf f a = rootOf f b := by
+  obtain ⟨pre₁, l₁, e₁, c₁⟩ := (chain_anc hac a).suffix ha
+  obtain ⟨pre₂, l₂, e₂, c₂⟩ := (chain_anc hac b).suffix hb
+  have := c₁.unique c₂; subst this
+  obtain ⟨t, rfl⟩ := c₁.head
+  unfold rootOf
+  simp only [anc] at e₁ e₂
+  rw [e₁, e₂]
+  simp [List.getLast?_append, List.getLast?_cons]
+
+theorem rootOf_mem {f : Forest N G} (a : N) : rootOf f a ∈ anc f a := by
+  have key : ∀ l : List N, a ∈ l → l.getLastD a ∈ l := by
+    intro l hm
+    cases l with
+    | nil => simp at hm
+    | cons x t =>
+      rw [List.getLastD_eq_getLast?, List.getLast?_eq_some_getLast (List.cons_ne_nil x t)]
+      exact List.getLast_mem _
+  exact key _ (self_mem_anc f a)
+
+section roots
+variable [Mul G] [One G] [Inv G] [LawfulGroup G]
+
+theorem getRaw_spec {f : Forest N G} {rank : N → Nat} (h : WFr f rank) (a b : N) :
+    getRaw f a b =
+      if rootOf f a = rootOf f b
+      then some ((world f f.parents.length a)⁻¹ * world f f.parents.length b) else none := by
+  unfold getRaw
+  by_cases hab : a = b
+  · subst hab; simp [LawfulGroup.inv_mul_cancel]
+  · rw [if_neg hab]
+    cases he : edgeOf f a b with
+    | some g =>
+      have hm := edgeOf_mem he
+      have hp : parentOf f b = some a :=
+        parentOf_of_mem h.parents_nodup ((h.consistent a b).mpr ⟨g, hm⟩)
+      have hr : rootOf f a = rootOf f b :=
+        rootOf_eq_of_common h.acyclic (self_mem_anc f a)
+          (by rw [anc_step h.acyclic hp]; exact List.mem_cons_of_mem _ (self_mem_anc f a))
+      simp only [hr, if_true]
+      rw [world_edge h hm, g_inv_mul_mul]
+    | none =>
+      simp only
+      unfold pathTo
+      simp only
+      cases hf : (anc f a).find? (fun x => (anc f b).contains x) with
+      | none =>
+        simp only [anc] at hf
+        simp only [Option.bind_none]
+        rw [if_neg]
+        intro hr
+        rw [List.find?_eq_none] at hf
+        have := hf _ (rootOf_mem a)
+        rw [hr] at this
+        exact this (by simpa using rootOf_mem (f := f) b)
+      | some link =>
+        have ha := List.mem_of_find?_eq_some hf
+        have hb : link ∈ anc f b := by simpa using List.find?_some hf
+        simp only [anc] at hf
+        simp only [Option.bind_some]
+        rw [if_pos (rootOf_eq_of_common h.acyclic ha hb)]
+        exact pathProduct_updown h ha hb
+
+end roots
+
+/-! ### well-formedness is preserved -/
+
+omit [DecidableEq N] in
+theorem wfr_empty : WFr (Forest.empty : Forest N G) (fun _ => 0) :=
+  ⟨by simp [Forest.empty], by simp [Forest.empty], by simp [Forest.empty], by simp [Forest.empty]⟩
+
+theorem wfr_removeNode {f : Forest N G} {rank : N → Nat} (h : WFr f rank) (u : N) :
+    WFr (removeNode f u) rank := by
+  unfold removeNode
+  split
+  · exact h
+  · refine ⟨?_, ?_, ?_, ?_⟩
+    · exact List.Nodup.sublist (List.Sublist.map _ List.filter_sublist) h.parents_nodup
+    · exact List.Nodup.sublist (List.Sublist.map _ List.filter_sublist) h.edges_nodup
+    · intro x y
+      simp only [List.mem_filter, Bool.and_eq_true, bne_iff_ne, ne_eq]
+      constructor
+      · rintro ⟨hm, hy, hx⟩
+        obtain ⟨g, hg⟩ := (h.consistent x y).mp hm
+        exact ⟨g, hg, hx, hy⟩
+      · rintro ⟨g, hg, hx, hy⟩
+        exact ⟨(h.consistent x y).mpr ⟨g, hg⟩, hy, hx⟩
+    · intro p hp
+      exact h.acyclic p (List.mem_filter.mp hp).1
+
+/-- the edge list of `addEdge` before the new edge is inserted -/
+def addEdgeE (f : Forest N G) (u v : N) : List ((N × N) × G) :=
+  match parentOf f v with
+  | some p => if p ≠ u then f.edges.filter (fun (e : (N × N) × G) => e.1 != (p, v)) else f.edges
+  | none => f.edges
+
+theorem addEdge_eq (f : Forest N G) (u v : N) (g : G) :
+    addEdge f u v g =
+      { parents := (v, u) :: f.parents.filter (fun p => p.1 != v),
+        edges := ((u, v), g) :: (addEdgeE f u v).filter (fun e => e.1 != (u, v)),
+        nodes := addNode (addNode f.nodes u) v } := rfl
+
+theorem addEdgeE_sublist (f : Forest N G) (u v : N) : (addEdgeE f u v).Sublist f.edges := by
+  unfold addEdgeE
+  split
+  · split
+    · exact List.filter_sublist
+    · exact List.Sublist.refl _
+  · exact List.Sublist.refl _
+
+theorem addEdgeE_mem_of_ne (f : Forest N G) (u v : N) {x y : N} {g' : G} (hy : y ≠ v) :
+    ((x, y), g') ∈ addEdgeE f u v ↔ ((x, y), g') ∈ f.edges := by
+  unfold addEdgeE
+  split
+  · split
+    · simp [List.mem_filter, hy]
+    · rfl
+  · rfl
+
+theorem addEdgeE_child {f : Forest N G} {rank : N → Nat} (h : WFr f rank) (u v : N) {x : N} {g' : G}
+    (hm : ((x, v), g') ∈ addEdgeE f u v) : x = u := by
+  have hm' := (addEdgeE_sublist f u v).subset hm
+  have hp := parentOf_of_mem h.parents_nodup ((h.consistent x v).mpr ⟨g', hm'⟩)
+  unfold addEdgeE at hm
+  rw [hp] at hm
+  simp only at hm
+  by_cases hxu : x = u
+  · exact hxu
+  · rw [if_pos hxu] at hm
+    simp [List.mem_filter] at hm
+
+theorem wfr_addEdge {f : Forest N G} {rank : N → Nat} (h : WFr f rank) (u v : N) (g : G)
+    (hc : v ∉ anc f u) :
+    WFr (addEdge f u v g)
+      (fun x => rank x + if (anc f x).contains v then rank u + 1 else 0) := by
+  rw [addEdge_eq]
+  refine ⟨?_, ?_, ?_, ?_⟩
+  · simp only [List.map_cons, List.nodup_cons]
+    refine ⟨?_, List.Nodup.sublist (List.Sublist.map _ List.filter_sublist) h.parents_nodup⟩
+    simp [List.mem_map, List.mem_filter]
+  · simp only [List.map_cons, List.nodup_cons]
+    refine ⟨?_, List.Nodup.sublist
+      (List.Sublist.map _ (List.filter_sublist.trans (addEdgeE_sublist f u v))) h.edges_nodup⟩
+    simp [List.mem_map, List.mem_filter]
+  · intro x y
+    simp only [List.mem_cons, List.mem_filter, Prod.mk.injEq, bne_iff_ne, ne_eq]
+    constructor
+    · rintro (⟨rfl, rfl⟩ | ⟨hm, hy⟩)
+      · exact ⟨g, Or.inl ⟨⟨rfl, rfl⟩, rfl⟩⟩
+      · obtain ⟨g', hg'⟩ := (h.consistent x y).mp hm
+        exact ⟨g', Or.inr ⟨(addEdgeE_mem_of_ne f u v hy).mpr hg', fun hh => hy hh.2⟩⟩
+    · rintro ⟨g', (⟨⟨rfl, rfl⟩, _⟩ | ⟨hm, hne⟩)⟩
+      · exact Or.inl ⟨rfl, rfl⟩
+      · by_cases hy : y = v
+        · subst hy
+          exact absurd ⟨addEdgeE_child h u y hm, rfl⟩ hne
+        · exact Or.inr ⟨(h.consistent x y).mpr ⟨g', (addEdgeE_mem_of_ne f u v hy).mp hm⟩, hy⟩
+  · intro p hp
+    rcases List.mem_cons.mp hp with rfl | hp
+    · have h1 : (anc f u).contains v = false := by simpa using hc
+      have h2 : (anc f v).contains v = true := by simpa using self_mem_anc f v
+      simp only [h1, h2, if_true]
+      simp
+      omega
+    · obtain ⟨hp, hne⟩ := List.mem_filter.mp hp
+      obtain ⟨c, q⟩ := p
+      simp only [bne_iff_ne, ne_eq] at hne
+      have hpar := parentOf_of_mem h.parents_nodup hp
+      have hlt := h.acyclic _ hp
+      simp only at hlt ⊢
+      rw [anc_step h.acyclic hpar]
+      have : (c :: anc f q).contains v = (anc f q).contains v := by
+        simp [Ne.symm hne]
+      rw [this]
+      omega
+
+/-! ### removal disconnects, updates are visible -/
+
+theorem not_mem_ancestors {f : Forest N G} {u : N} (hpar : ∀ p ∈ f.parents, p.2 ≠ u) :
+    ∀ (n : Nat) (w : N), w ≠ u → u ∉ ancestors f n w := by
+  intro n
+  induction n with
+  | zero => intro w hw; simp [ancestors, Ne.symm hw]
+  | succ n ih =>
+    intro w hw
+    simp only [ancestors]
+    split
+    · rename_i p hp
+      have := hpar _ (parentOf_mem hp)
+      simp only [List.mem_cons, not_or]
+      exact ⟨Ne.symm hw, ih p this⟩
+    · simp [Ne.symm hw]
+
+theorem ancestors_of_no_parent {f : Forest N G} {u : N} (hp : parentOf f u = none) (n : Nat) :
+    ancestors f n u = [u] := by
+  cases n <;> simp [ancestors, hp]
+
+section vis
+variable [Mul G] [One G] [Inv G]
+
+theorem getRaw_removeNode {f : Forest N G} {u w : N} (hne : u ≠ w) (hn : hasNode f u = true) :
+    getRaw (removeNode f u) u w = none := by
+  have hf : removeNode f u =
+      { parents := f.parents.filter (fun p => p.1 != u && p.2 != u),
+        edges := f.edges.filter (fun e => e.1.1 != u && e.1.2 != u),
+        nodes := f.nodes.filter (· != u) } := by
+    simp [removeNode, hn]
+  generalize removeNode f u = f' at hf
+  have hpar1 : ∀ p ∈ f'.parents, p.1 ≠ u := by
+    intro p hp; rw [hf] at hp; simp [List.mem_filter] at hp; exact hp.2.1
+  have hpar2 : ∀ p ∈ f'.parents, p.2 ≠ u := by
+    intro p hp; rw [hf] at hp; simp [List.mem_filter] at hp; exact hp.2.2
+  have hedge : ∀ e ∈ f'.edges, e.1 ≠ (u, w) := by
+    intro e he; rw [hf] at he; simp [List.mem_filter] at he
+    intro h; exact he.2.1 (by rw [h])
+  have hpu : parentOf f' u = none := lookup_none hpar1
+  have heu : edgeOf f' u w = none := lookup_none hedge
+  unfold getRaw
+  rw [if_neg hne, heu]
+  simp only
+  unfold pathTo
+  simp only [ancestors_of_no_parent hpu]
+  have hnm : u ∉ ancestors f' f'.parents.length w :=
+    not_mem_ancestors hpar2 _ w (Ne.symm hne)
+  simp [hnm]
+
+theorem getRaw_addEdge {f : Forest N G} {u v : N} (g : G) (hne : u ≠ v) :
+    getRaw (addEdge f u v g) u v = some g := by
+  unfold getRaw
+  rw [if_neg hne, addEdge_eq]
+  simp [edgeOf]
+
+end vis
 
 end TV.Forest
